@@ -18,6 +18,27 @@ type propDef struct {
 	run   func(*load.Program, *report.Run)
 }
 
+// extras registers rules under a property with a descriptive key (Cxx:name); `-prop Cxx:name` runs one alone.
+func init() {
+	for _, e := range []struct {
+		prop, name string
+		run        func(*load.Program, *report.Run)
+	}{
+		{"C05", "bufviews", props.BufViews},
+		{"C01", "bufviews", props.BufViews},
+		{"C11", "bufviews", props.BufViews},
+		{"C10", "bufviews", props.BufViews},
+		{"C02", "bufviews", props.BufViews},
+		{"C10", "needspace", props.NeedSpaceBounded},
+		{"C11", "needspace", props.NeedSpaceBounded},
+		{"C05", "needspace", props.NeedSpaceBounded},
+		{"C01", "needspace", props.NeedSpaceBounded},
+		{"C02", "needspace", props.NeedSpaceBounded},
+	} {
+		registry[e.prop+":"+e.name] = propDef{"other", e.run}
+	}
+}
+
 var registry = map[string]propDef{
 	"C01":  {"proof", props.C01},
 	"C01o": {"proof", props.C01offset},
@@ -77,6 +98,12 @@ var registry = map[string]propDef{
 	"C19w": {"other", props.C19wait},
 	"C19k": {"other", props.Wakers("p2p")},
 	"C19c": {"other", props.C19closed},
+	"C14p": {"other", props.PoolResets},
+	"C17r": {"other", props.PoolResets},
+	"C06v": {"other", props.RecvViews("ot", "vole", "bmr")},
+	"C15v": {"other", props.RecvViews("ot")},
+	"C20v": {"other", props.RecvViews("ot", "vole", "bmr")},
+	"C02v": {"other", props.RecvViews("ot", "circuit")},
 	"C19t": {"other", props.Deadlines("p2p")},
 	"C10u": {"other", props.Deadlines("gmw", "p2p")},
 	"C10y": {"other", props.Wakers("gmw")},
